@@ -22,8 +22,21 @@ from .core import FuncInfo, Repo, parent_map
 
 Path = Tuple[str, ...]
 SHELLS = {"fresh:list", "fresh:tuple", "fresh:set", "fresh:dict", "fresh:comp", "fresh:list()", "fresh:set()", "fresh:dict()", "fresh:tuple()"}
+SHELL_PASS = {"arg0:enumerate", "arg0:list", "arg0:sorted", "arg0:tuple", "arg0:set", "arg0:reversed", "arg0:iter", "call:items", "call:keys",
+              "call:values", "call:copy", "arg0:dict"}
 MAXLEN = 14
 MAXPATHS = 400
+
+
+KEY_ITER_PASS = {"arg0:enumerate", "arg0:list", "arg0:sorted", "arg0:tuple", "arg0:set", "arg0:reversed", "arg0:iter", "call:keys"}
+
+
+def _after_setval_keysonly(p) -> bool:
+    """the path is a VALUE stored into a dict followed only by steps that iterate the dict's keys"""
+    idx = [i for i, x in enumerate(p) if x.startswith("in:setval@")]
+    if not idx:
+        return False
+    return all(x in KEY_ITER_PASS or (x.startswith("arg") and x.endswith(":zip")) for x in p[idx[-1] + 1:])
 
 
 def callee_name(call: ast.Call) -> str:
@@ -42,6 +55,7 @@ class Prov:
         self.g = C.cfg_of(f.node)
         self.rd = C.ReachingDefs(self.g, f.params)
         self.parents = parent_map(f.node)
+        self._under = None
         self._node_of_expr: Dict[int, int] = {}
         for n in self.g.nodes():
             s = self.g.stmt[n]
@@ -68,7 +82,17 @@ class Prov:
             elif isinstance(nd, ast.Assign):
                 for t in nd.targets:
                     if isinstance(t, ast.Subscript) and isinstance(t.value, ast.Name):
-                        self._content.setdefault(t.value.id, []).append(("setitem", nd.value))
+                        # a dict's values are reached by subscripting only, its keys by iterating only
+                        self._content.setdefault(t.value.id, []).append(("setval" if self._is_dict(t.value) else "setitem", nd.value))
+                        if not isinstance(t.slice, ast.Slice):
+                            self._content.setdefault(t.value.id, []).append(("setkey", t.slice))
+
+    def _is_dict(self, name: ast.Name) -> bool:
+        try:
+            t = self.repo.types(self.f).typeof(name)
+        except Exception:
+            return False
+        return bool(t) and t[0] == "dict"
 
     # ------------------------------------------------------------------
     def node_of(self, expr: ast.AST) -> int:
@@ -87,11 +111,17 @@ class Prov:
             raise KeyError(f"expression not in CFG: {ast.dump(expr)[:80]}")
         return n
 
-    def trace(self, expr: ast.AST, at: Optional[int] = None, keys: bool = False) -> Set[Path]:
-        """keys=True also returns the paths of subscript index expressions (marked by the step 'askey')"""
+    def trace(self, expr: ast.AST, at: Optional[int] = None, keys: bool = False, under=None) -> Set[Path]:
+        """keys=True also returns the paths of subscript index expressions (marked by the step 'askey').
+        under=(val, seen): provenance under a valuation of guard atoms -- conditional expressions decided by `val` contribute
+        only the chosen branch and only definitions at CFG nodes in `seen` (the nodes reachable under the valuation) count."""
         if at is None:
             at = self.node_of(expr)
-        out = self._trace(expr, at, frozenset(), 0)
+        self._under = under
+        try:
+            out = self._trace(expr, at, frozenset(), 0)
+        finally:
+            self._under = None
         if not keys:
             out = {p for p in out if "askey" not in p}
         return out
@@ -101,8 +131,15 @@ class Prov:
         out = set()
         shell_step = step == "elem" or step.startswith("item")
         for p in paths:
-            if shell_step and len(p) == 1 and p[0] in SHELLS:
+            if shell_step and p[0] in SHELLS and all(x in SHELL_PASS or (x.startswith("arg") and x.endswith(":zip")) for x in p[1:]):
                 continue  # the elements of a fresh container are its 'in:' flows, the container object has no others
+            if step == "elem" and _after_setval_keysonly(p):
+                continue
+            if shell_step and step != "elem" and p[-1].startswith("in:setkey@"):
+                continue
+            if step.startswith("unpack:") and len(p) >= 2 and p[-1] == "elem" and p[-2].endswith(":zip") and p[-2].startswith("arg") \
+                    and p[-2][3:-4].isdigit() and p[-2][3:-4] != step[7:]:
+                continue  # the i-th component of an element of zip(a0, a1, ..) comes from a_i only
             out.add(p + (step,) if len(p) < MAXLEN else p)
         return out
 
@@ -175,6 +212,12 @@ class Prov:
         if isinstance(e, ast.Starred):
             return self._ext(T(e.value), "elem")
         if isinstance(e, ast.IfExp):
+            if getattr(self, "_under", None) is not None:
+                tv = C.eval3(e.test, self._under[0])
+                if tv is True:
+                    return T(e.body)
+                if tv is False:
+                    return T(e.orelse)
             return T(e.body) | T(e.orelse)
         if isinstance(e, ast.BoolOp):
             out = set()
@@ -265,6 +308,9 @@ class Prov:
                 return {(f"global:{name}",)}
             return {(f"builtin:{name}",)}
         out: Set[Path] = set()
+        if getattr(self, "_under", None) is not None:
+            live = {d for d in defs if d in self._under[1] or d == self.g.entry}
+            defs = live or defs
         for d in defs:
             key = (name, d)
             if key in seen:
@@ -320,6 +366,8 @@ class Prov:
                     continue
                 if mine and not (self.rd.defs_reaching(an, name) & mine):
                     continue  # the store goes into another object that merely had the same variable name
+                if getattr(self, "_under", None) is not None and an not in self._under[1]:
+                    continue
                 out |= self._ext(self._trace(arg, an, seen | {ckey}, depth + 1), f"in:{meth}@{name}")
         if len(out) > MAXPATHS:
             out = set(sorted(out)[:MAXPATHS])
